@@ -23,3 +23,8 @@ package model
 // log text only; may panic on malformed datagrams (C05)
 //@ func (*DatagramType).PrintMessageOverview trusted
 //@   modifies nothing
+
+// returns pointers into cmd.Filter (the partial and the delete filter, if present); may panic on a
+// filter without cmdControl (C05)
+//@ func (*CmdType).ExtractFilter trusted
+//@   modifies nothing
